@@ -546,6 +546,18 @@ func (pp c08) Run(c *core.Ctx, idx int) {
 					c.Violate("leaf/not-found/"+htag+"/"+storeName, "Find(%q) = %v, %v\n%s", lp, sel, err, wit())
 					continue
 				}
+				// the same leaf selected from the node that holds it: the same place, so the same path
+				if len(p) > 0 {
+					c.Eval()
+					var viaParent *node.Selection
+					if !c.Guard("Find leaf from its parent", func() {
+						if ps, e := b.Root().Find(spell(s, p, 0)); e == nil && ps != nil {
+							viaParent, _ = ps.Find(name)
+						}
+					}) && viaParent != nil && viaParent.Path.String() != sel.Path.String() {
+						c.Violate("leaf/path-from-start/"+storeName, "the leaf found as %q from the root has path %q, found as %q from its parent it has path %q\n%s", lp, sel.Path.String(), name, viaParent.Path.String(), wit())
+					}
+				}
 				var v interface{ String() string }
 				if !c.Guard("Get", func() {
 					x, e := sel.Get()
